@@ -224,7 +224,9 @@ def check(run):
         run._distinct.add("afterfail%d" % i)
     # malformed encodings
     good = seeds[3]
-    bad_bytes = [good[:31], good + b"\x00", b"", good.hex(), None, 5, [good], bytearray(good)[:31]]
+    import array
+    bad_bytes = [good[:31], good + b"\x00", b"", good.hex(), None, 5, [good], bytearray(good)[:31], memoryview(good), array.array("B", good), tuple(good), list(good),
+                 int.from_bytes(good, "big"), good * 2]
     bad_hex = [good.hex().encode(), bytearray(good.hex().encode()), good.hex()[:63], good.hex() + "0", good.hex().upper(), " " + good.hex()[1:], good, None, 5, "0x" + good.hex()[2:], good.hex() + "\n", ""]
     for cls in (c.PrivateKey, c.PublicKey):
         for b in bad_bytes:
@@ -244,6 +246,24 @@ def check(run):
                 pass
             except Exception as e:  # noqa: BLE001
                 viol(f"{cls.__name__}.from_hex raised {type(e).__name__} on a malformed encoding")
+            run.evaluations += 1
+    # key FILES of the wrong length (or empty, or hex text instead of raw bytes) are not key files: nothing is loaded from them
+    for i, (pri, pub) in enumerate([(good + b"\x00", None), (good * 2, None), (good[:31], None), (b"", None), (good.hex().encode(), None), (good + b"\n", None),
+                                    (None, crypto.ed25519_ref_public(good) + b"\x00"), (None, crypto.ed25519_ref_public(good)[:31]), (None, b""),
+                                    (None, crypto.ed25519_ref_public(good).hex().encode())]):
+        name = os.path.join(wd, "badfile%d" % i)
+        with open(name + ".pri", "wb") as f:
+            f.write(good if pri is None else pri)
+        with open(name + ".pub", "wb") as f:
+            f.write(crypto.ed25519_ref_public(good) if pub is None else pub)
+        for fn_name, fn in (("keyfiles_to_keys", c.keyfiles_to_keys),):
+            try:
+                fn(name)
+                viol(f"{fn_name} loads keys from a {'private' if pri is not None else 'public'} key file of the wrong length ({len(pri if pri is not None else pub)} bytes)")
+            except (TypeError, ValueError):
+                pass
+            except Exception as e:  # noqa: BLE001
+                viol(f"{fn_name} raised {type(e).__name__} on a key file of the wrong length")
             run.evaluations += 1
     run.exhaustive = True
     run.assumptions.append("RFC 8032 equality is a differential check against a pure-Python reference validated on the RFC's test vectors; 'all 32-byte seeds' is sampled (seeded) plus edge seeds")
